@@ -410,6 +410,8 @@ func runC05(w *World, r *Report) {
 		})
 	}
 
+	carryThresholdInclusive(w, r, "carry-threshold-is-inclusive")
+
 	// ---- the carry never wraps the currency
 	r.rule("carry-increment-guarded", "every currency increment by one (the carry) is immediately guarded: the nearest dominating test of that same field against 2^64-1 has its fail edge leading to an error return, and the field is not written between the test and the increment", 2)
 	for _, spec := range [][2]string{{"Melange", "Supply"}, {"", "Transfer"}} {
@@ -572,34 +574,7 @@ func runC05(w *World, r *Report) {
 	}
 
 	// ---- the sink of a Drain is scratch space of that one computation
-	r.rule("drain-sink-is-private", "the sink handed to Drain / the receiver side of Transfer in ledger accounting is storage of that computation (a fresh value or a local), never package-level state: a shared sink accumulates across calls and makes in − out depend on history", 2)
-	for _, fn := range w.RepoFuncs("accountant") {
-		for _, c := range callsTo(fn, nDrain, nTransfer) {
-			_, a := callArgs(c)
-			sink := a[len(a)-1]
-			shared := ""
-			var chase func(v ssa.Value, d int)
-			chase = func(v ssa.Value, d int) {
-				if d > 6 || shared != "" {
-					return
-				}
-				switch x := v.(type) {
-				case *ssa.Global:
-					shared = x.Name()
-				case *ssa.UnOp:
-					chase(x.X, d+1)
-				case *ssa.FieldAddr:
-					chase(x.X, d+1)
-				case *ssa.Phi:
-					for _, e := range x.Edges {
-						chase(e, d+1)
-					}
-				}
-			}
-			chase(sink, 0)
-			r.check(shared == "", "drain-sink-is-private", strings.TrimPrefix(shortFn(fn), "(*accountant.")+"/"+shortCallee(c), lineOf(w, c), "the sink is not shared between computations", "the sink is the package-level variable "+shared)
-		}
-	}
+	drainSinkPrivate(w, r, "drain-sink-is-private")
 
 	// ---- 2. canonical amounts only
 	r.rule("canonicality-predicate", "a predicate exists whose result is decided by SupplementaryCurrency < 10^18", 1)
@@ -899,6 +874,7 @@ func runC06(w *World, r *Report) {
 	checkpointWritesEveryAddress(w, r, "checkpoint-replaces-every-record")
 	checkpointKeyDiscipline(w, r, "checkpoint-keys-agree")
 	checkpointCountsWhatBalanceCounts(w, r, "checkpoint-counts-what-the-balance-counts")
+	carryThresholdInclusive(w, r, "carry-threshold-is-inclusive")
 	r.rule("flow-classifier", "pourFunds classifies issuer→outflow and receiver→inflow as two independent tests with the same amount", 4)
 	pourFundsRoles(w, r, "flow-classifier")
 
@@ -988,6 +964,7 @@ func runC07(w *World, r *Report) {
 	checkpointWritesEveryAddress(w, r, "checkpoint-writes-every-address")
 	checkpointKeyDiscipline(w, r, "checkpoint-keys-agree")
 	checkpointCountsWhatBalanceCounts(w, r, "checkpoint-counts-what-the-balance-counts")
+	drainSinkPrivate(w, r, "drain-sink-is-private")
 	// a transaction whose vertex left the live graph is answered from storage: whatever the graph lookup fails with
 	r.rule("by-hash-read-falls-back-to-storage", "in ReadTransactionByHash every failure of the live-graph lookup leads to the storage read before any return (a fallback that is taken only for a recognised error value is skipped when the recognition fails)", 1)
 	if rt := w.fx(r, "accountant", "AccountingBook", "ReadTransactionByHash"); rt != nil {
@@ -1643,4 +1620,97 @@ func checkpointCountsWhatBalanceCounts(w *World, r *Report, rule string) {
 		return false
 	})
 	r.check(len(notTransfer) > 0 && skipped == 0, rule, "nextVertex/only-non-transfers-skipped", w.Pos(fn.Pos()), "a vertex is left out of the checkpoint only when its transaction is not a spice transfer", fmt.Sprintf("%d successful returns (e.g. %s) are reachable without updateFounds and without the IsSpiceTransfer() == false edge; non-transfer edges found: %d", skipped, where, len(notTransfer)))
+}
+
+
+// drainSinkPrivate: the sink handed to Drain / the receiving side of Transfer in ledger accounting belongs to that one
+// computation: not package-level state, and inside a loop not a variable that outlives the iteration (Transfer refuses
+// with an overflow error when sink + amount does not fit — a sink that accumulates makes a later Drain fail or, where
+// its error is dropped, leaves the gross inflow standing).
+func drainSinkPrivate(w *World, r *Report, rule string) {
+	r.rule(rule, "the sink handed to Drain / the receiver side of Transfer in ledger accounting is storage of that computation (a fresh value or a local of the iteration), never package-level state or a variable shared by the iterations of a loop: a shared sink accumulates and makes in − out depend on history", 2)
+	for _, fn := range w.RepoFuncs("accountant") {
+		for _, c := range callsTo(fn, nDrain, nTransfer) {
+			_, a := callArgs(c)
+			sink := a[len(a)-1]
+			shared := ""
+			var chase func(v ssa.Value, d int)
+			chase = func(v ssa.Value, d int) {
+				if d > 6 || shared != "" {
+					return
+				}
+				switch x := v.(type) {
+				case *ssa.Global:
+					shared = "the package-level variable " + x.Name()
+				case *ssa.Alloc:
+					cb := c.(ssa.Instruction).Block()
+					if onCycleWith(cb, cb) && !onCycleWith(x.Block(), cb) {
+						shared = "the variable " + x.Comment + ", declared outside the loop that drains into it"
+					}
+				case *ssa.UnOp:
+					chase(x.X, d+1)
+				case *ssa.FieldAddr:
+					chase(x.X, d+1)
+				case *ssa.Phi:
+					for _, e := range x.Edges {
+						chase(e, d+1)
+					}
+				}
+			}
+			chase(sink, 0)
+			r.check(shared == "", rule, strings.TrimPrefix(shortFn(fn), "(*accountant.")+"/"+shortCallee(c), lineOf(w, c), "the sink is not shared between computations", "the sink is "+shared)
+		}
+	}
+}
+
+
+// carryThresholdInclusive: a supplementary part of exactly 10^18 is one whole unit: every comparison of a quantity with
+// the constant 10^18 in the spice arithmetic splits at "< 10^18" / ">= 10^18" (a strict "> 10^18" leaves 10^18 itself
+// un-carried: the sum of 0.5 and 0.5 stays (0, 10^18) instead of (1, 0)).
+func carryThresholdInclusive(w *World, r *Report, rule string) {
+	r.rule(rule, "every comparison with the constant 10^18 in package spice is `x >= 10^18` or `x < 10^18` (never `>` or `<=`): the value 10^18 itself belongs to the carry side", 3)
+	sp := w.Pkg("spice")
+	if sp == nil {
+		return
+	}
+	var K int64
+	if c, ok := sp.Pkg.Scope().Lookup("MaxAmountPerSupplementaryCurrency").(*types.Const); ok {
+		K, _ = constant.Int64Val(c.Val())
+	}
+	n := 0
+	for _, fn := range w.RepoFuncs("spice") {
+		instrsOf(fn, func(in ssa.Instruction) {
+			bo, ok := in.(*ssa.BinOp)
+			if !ok {
+				return
+			}
+			kx, isKx := intConst(bo.X)
+			ky, isKy := intConst(bo.Y)
+			op := bo.Op
+			switch {
+			case isKy && ky == K:
+			case isKx && kx == K: // mirror: K ? x  ==  x ?' K
+				switch op {
+				case token.LSS:
+					op = token.GTR
+				case token.GTR:
+					op = token.LSS
+				case token.LEQ:
+					op = token.GEQ
+				case token.GEQ:
+					op = token.LEQ
+				}
+			default:
+				return
+			}
+			switch op {
+			case token.GEQ, token.LSS:
+				n++
+				r.ok(rule, fmt.Sprintf("%s/%s#%d", shortFn(fn), op, n), lineOf(w, bo), "the split is at >= 10^18")
+			case token.GTR, token.LEQ:
+				n++
+				r.bad(rule, fmt.Sprintf("%s/%s#%d", shortFn(fn), op, n), lineOf(w, bo), "10^18 itself is on the carry side", fmt.Sprintf("%s compares with 10^18 using %s: a supplementary part of exactly 10^18 is not carried into the currency", shortFn(fn), op))
+			}
+		})
+	}
 }
